@@ -137,8 +137,7 @@ example : (plan (fun _ _ => false)
     first input) -/
 def noSyncBundle (ts : List Task) : Prop := ∀ t ∈ ts, t.sync = true → t.srcs.length ≤ 1
 
-/-- **only_dst_touched** (partial only in the guard `noSyncBundle`; the `.bak` exception is gone since
-    fixes 3823c65 / 44ee05b): whatever the invocation (selection, filters, bundle, sync, errors, refused
+/-- `only_dst_touched` under the explicit guard (the guard is discharged by `plan_noSyncBundle` below): whatever the invocation (selection, filters, bundle, sync, errors, refused
     tasks), a path that is not the destination of a task has the same content (or absence) after the
     command as before — in particular no `<name>.bak` is created, overwritten or removed. -/
 theorem only_dst_touched_partial (pm : Nat → Bytes → Bool) (lib : Bytes → Bytes → Option Bytes) (inv : Inv)
@@ -162,21 +161,33 @@ theorem only_dst_touched_partial (pm : Nat → Bytes → Bool) (lib : Bytes → 
     intro t ht
     exact ⟨h t.1 (List.mem_map.mpr ⟨t, ht, rfl⟩), hg t.1 (List.mem_map.mpr ⟨t, ht, rfl⟩)⟩
 
-/-- **Full statement** without the guard (false, K-C19-5) -/
-def only_dst_touched_full : Prop :=
-  ∀ (pm : Nat → Bytes → Bool) (lib : Bytes → Bytes → Option Bytes) (inv : Inv) (fs : Fs) (q : Path),
-    (∀ t ∈ (effects pm lib inv fs).tasks, q ≠ t.dst) → (effects pm lib inv fs).fs.get q = fs.get q
+/-- every plan satisfies the guard: sync tasks have one source (`--bundle` with `--sync` is rejected since 4497624,
+    and without `--sync` no task is a sync task) -/
+theorem plan_noSyncBundle (pm : Nat → Bytes → Bool) (lib : Bytes → Bytes → Option Bytes) (inv : Inv) (fs : Fs) :
+    noSyncBundle (effects pm lib inv fs).tasks := by
+  unfold effects
+  cases hp : plan pm fs inv with
+  | none => intro t ht; simp at ht
+  | some pl =>
+    intro t ht
+    simp only [List.mem_map] at ht
+    obtain ⟨tk, ⟨t0, ht0, rfl⟩, rfl⟩ := ht
+    exact plan_syncSingle pm fs inv pl hp (toTask pl t0) (List.mem_map.mpr ⟨t0, ht0, rfl⟩)
 
-/-- K-C19-5: `minify -b --sync --exclude=a.txt -o b.css a.txt b.css` — the merged task is a sync copy, which
-    returns before the clean-up: `b.css.bak` is left behind. -/
-theorem only_dst_touched_counterexample : ¬ only_dst_touched_full := by
-  intro h
-  have := h (fun _ s => s == strBytes "a.txt") (fun _ b => some b)
-    { inputs := [strBytes "a.txt", strBytes "b.css"], output := strBytes "b.css", bundle := true, sync := true,
-      filters := [(false, 0)] }
+/-- **only_dst_touched** (full strength since the fixes 3823c65 / 44ee05b / 4497624): whatever the tree, the
+    invocation (selection, filters, bundle, sync, rejected invocations, refused tasks, minifier errors) and the
+    library, a path that is not the destination of a task has the same content (or absence) after the command as
+    before — no other file is modified, no `<name>.bak` is created, overwritten or left behind. -/
+theorem only_dst_touched (pm : Nat → Bytes → Bool) (lib : Bytes → Bytes → Option Bytes) (inv : Inv)
+    (fs : Fs) (q : Path) (h : ∀ t ∈ (effects pm lib inv fs).tasks, q ≠ t.dst) :
+    (effects pm lib inv fs).fs.get q = fs.get q :=
+  only_dst_touched_partial pm lib inv fs q h (plan_noSyncBundle pm lib inv fs)
+
+/-- regression (K-C19-5, fixed by 4497624): `minify -b --sync --exclude=a.txt -o b.css a.txt b.css` is rejected -/
+example : plan (fun _ s => s == strBytes "a.txt")
     { files := [(strBytes "a.txt", strBytes "hello"), (strBytes "b.css", strBytes "b{}")] }
-    (strBytes "b.css.bak") (by decide +kernel)
-  revert this
+    { inputs := [strBytes "a.txt", strBytes "b.css"], output := strBytes "b.css", bundle := true, sync := true,
+      filters := [(false, 0)] } = none := by
   decide +kernel
 
 /-- regression (K-C19-1, fixed by 44ee05b): `minify -o a.css a.css` next to an unrelated `a.css.bak` is
